@@ -43,6 +43,19 @@ def conclude(pid, tier, seed, obls, infos, undecided_reasons, wall, write_eviden
     kf = known_findings()
     P = props.PROPS[pid]
     viol, known, undec = [], [], list(undecided_reasons)
+    # Verus / PolyVC give no counterexample: search for a failing input on the real code
+    WITNESS_MODES = ("c10_jubjub_fr", "c11_jubjub", "c11_bls")
+    for ob in obls:
+        if ob.backend in ("verus", "polyvc") and getattr(ob, "unit_name", None) in WITNESS_MODES and not getattr(ob, "replay", None):
+            resource = ob.status == UNDECIDED and re.search(r"rlimit|Resource limit|timed out", ob.detail or "")
+            if ob.status == FAILED or resource:
+                import witness
+                parts = ob.name.split(".")
+                key = parts[2] if len(parts) > 2 else ob.name
+                hit = witness.attach(ob, ob.unit_name, key, seed, tier)
+                if hit and ob.status == UNDECIDED:
+                    ob.status = FAILED
+                    ob.detail += "\n(promoted from undecided: the witness search found a failing input on the real code)"
     for ob in obls:
         if ob.status == FAILED:
             f = _match_known(ob, kf)
